@@ -98,38 +98,7 @@ def parse_unit(name, n, bl, pcap, timeout, thorough_only=False, extra=''):
 NOP = '#define C14_NO_PIECES 1\n'      # start states without stored pieces (every state; STATE_BOUNDARY only in its initial form)
 ONLYP = '#define C14_ONLY_PIECES 1\n'   # start states STATE_BOUNDARY with 1..PMAX stored pieces (an open candidate carried over)
 parse_unit('c14_parse_call', 3, 5, 3, 300, extra=NOP)
-parse_unit('c14_parse_call_pieces', 3, 5, 3, 600, extra=ONLYP)
+parse_unit('c14_parse_call_pieces', 2, 5, 3, 300, extra=ONLYP)
 parse_unit('c14_parse_call_n4', 4, 5, 3, 1500, extra=NOP, thorough_only=True)
+parse_unit('c14_parse_call_pieces_n3', 3, 5, 3, 1500, extra=ONLYP, thorough_only=True)
 
-# ---------------------------------------------------------------------------------------------------------
-# 4.  leaf helpers (dfcc contracts, loop invariants)
-# ---------------------------------------------------------------------------------------------------------
-LEAF_PRE = '#define C14_LEAF_UNITS 1\n'
-UNITS.append(U(
-    name='htp_mpart_decode_quoted_cd_value_inplace', props=['C14', 'C01'], kind='contract', src=['htp_multipart.c'], link=['bstr.c'],
-    enforce='htp_mpart_decode_quoted_cd_value_inplace', contracts_inc=['c14_mpart.h'], pre=LEAF_PRE,
-    loops={'htp_multipart.c': {'htp_mpart_decode_quoted_cd_value_inplace': {'count': 1, 0: dict(
-        assigns='s, d, pos, __CPROVER_object_upto(C14_BP(b), WCAP)',
-        inv=['pos <= len', 'len <= WCAP', 's == C14_BP(b) + pos', '__CPROVER_same_object(d, s) && d <= s && C14_BP(b) <= d',
-             '2 * (size_t)(s - d) <= pos', '(len >= 1 && pos >= 1) ==> d >= C14_BP(b) + 1'],
-        dec='len - pos')}}},
-    harness='void HARNESS(void) { bstr *b; htp_mpart_decode_quoted_cd_value_inplace(b); CANARY(); }',
-    defs={'quick': {'WCAP': 16}, 'thorough': {'WCAP': 48}}, min_obl=20,
-    sub='C-D value unescaping in place: all reads/writes inside the value, write cursor never overtakes the read cursor, '
-        'result length in [ceil(len/2), len], non-empty stays non-empty, representation unchanged',
-    assumes=['inline bstr of fixed capacity WCAP (16 quick / 48 thorough) with symbolic length and content (bstr_dup_mem always returns inline bstrs)']))
-UNITS.append(U(
-    name='htp_mpartp_validate_boundary', props=['C14', 'C01'], kind='contract', src=['htp_multipart.c'],
-    enforce='htp_mpartp_validate_boundary', contracts_inc=['c14_mpart.h'], pre=LEAF_PRE,
-    loops={'htp_multipart.c': {'htp_mpartp_validate_boundary': {'count': 1, 0: dict(
-        assigns='pos, *flags',
-        inv=['pos <= len', 'len == boundary->len', 'data == (g_wrapped ? boundary->realptr : C14_BP(boundary))',
-             '(*flags & ~(uint64_t) C14_HB) == (__CPROVER_loop_entry(*flags) & ~(uint64_t) C14_HB)',
-             '(*flags & __CPROVER_loop_entry(*flags)) == __CPROVER_loop_entry(*flags)',
-             '(gk < pos && !C14_BCHAR_OK(C14_VB(boundary, gk)) && !C14_BUNUSUAL(C14_VB(boundary, gk))) ==> (*flags & HTP_MULTIPART_HBOUNDARY_INVALID)',
-             '(gk < pos && C14_BUNUSUAL(C14_VB(boundary, gk))) ==> (*flags & HTP_MULTIPART_HBOUNDARY_UNUSUAL)'],
-        dec='len - pos')}}},
-    harness='void HARNESS(void) { bstr *b; uint64_t *f; htp_mpartp_validate_boundary(b, f); CANARY(); }',
-    defs={'quick': {'VCAP': 128}, 'thorough': {'VCAP': 1024}}, min_obl=20,
-    sub='boundary validation: read-only, only HBOUNDARY_INVALID/UNUSUAL may be added, every byte outside the accepted sets and every bad length is flagged',
-    assumes=['boundary bstr inline or wrapped with capacity <= VCAP']))
